@@ -359,6 +359,30 @@ def layer_crash(ctx, tmp):
                      sample={'injector': inj, 'step': k, 'template': tname, 'left_behind': listing(d)} if k in (3, 4) and tname == 'small' else None)
             after_crash_check(ctx, d, jobs, ref, ref_files, '%s:%s step %d of %s' % (inj, tname, k, n_audit if inj == 'audit' else n_line))
             shutil.rmtree(d, ignore_errors=True)
+        # the entry exists already (a later process loads it instead of storing it): an exception at every line step of
+        # that load; the process survives, uses the template again and must get what it gets without a cache directory
+        if tname != 'large':
+            n_load = run_child(jobs, d0, {'C15_COUNT_LINES': '1'})['steps'].get('line', 0)
+            ctx.cover('steps-line-load-of-stored-entry', '%s:%d' % (tname, n_load))
+            for exc in ('KeyboardInterrupt', 'MemoryError'):
+                for k in range(1, n_load + 1):
+                    item += 1
+                    if item % ctx.nshards != ctx.shard:
+                        continue
+                    d = os.path.join(tempfile.mkdtemp(prefix='cache_', dir=tmp), 'c')
+                    shutil.copytree(d0, d)
+                    r = run_child(jobs + jobs, d, {'C15_RAISE_LINE': '%d:%s' % (k, exc)})
+                    died = bool(r['results']) and str(r['results'][0]).startswith('RAISED')
+                    if r['results'] and len(r['results']) == 2 * len(jobs):
+                        ctx.mon('retries-after-an-interrupted-load-of-a-stored-entry')
+                        if r['results'][len(jobs):] != ref:
+                            ctx.violation('retry-after-an-interrupted-load-fails', '%s injected at line step %d while the stored entry of %s was loaded: the '
+                                          'same process, using the template again, got %r; without a cache directory %r'
+                                          % (exc, k, tname, r['results'][len(jobs):], ref),
+                                          {'kind': 'crash', 'injector': 'raise-%s-on-load' % exc, 'step': k, 'template': tname})
+                    ctx.case(key=('crash', 'raise-on-load-' + exc, k, tname), nontrivial=died)
+                    after_crash_check(ctx, d, jobs, ref, ref_files, 'raise-%s-on-load:%s step %d of %d' % (exc, tname, k, n_load))
+                    shutil.rmtree(os.path.dirname(d), ignore_errors=True)
         shutil.rmtree(d0, ignore_errors=True)
 
 
